@@ -146,6 +146,10 @@ pub fn run(c: &SchedCase) -> ExecOutcome {
                 .collect()
         })
         .collect();
+    let quiet_tail = c.case % 4 == 1 && bound != Some(0);
+    if quiet_tail {
+        o.cov("senders-quiet-before-dropping-their-handles");
+    }
     let done = AtomicU32::new(0);
     let tids: Vec<Arc<AtomicI32>> = (0..k).map(|_| Arc::new(AtomicI32::new(0))).collect();
     let seed = c.seed ^ c.case;
@@ -154,6 +158,7 @@ pub fn run(c: &SchedCase) -> ExecOutcome {
     let mut all: Vec<Vec<Rec>> = Vec::new();
     let mut main_tx = Some(tx);
     let mut stuck_reported = false;
+    let mut stuck: Option<(usize, String, u32, u64)> = None;
     std::thread::scope(|s| {
         let mut hs = Vec::new();
         for t in 0..k {
@@ -197,6 +202,11 @@ pub fn run(c: &SchedCase) -> ExecOutcome {
                             }
                         }
                     }
+                }
+                // one case in four: the senders go quiet for a while before they let go of their handles, so that a
+                // message queued without a wake-up of its own is not rescued by the wake-up of the close
+                if quiet_tail && !cfg!(miri) {
+                    std::thread::sleep(Duration::from_millis(70));
                 }
                 hookrec::record(H_DROP_BEGIN, t as u64 + 1, 1);
                 drop(extra);
@@ -248,7 +258,10 @@ pub fn run(c: &SchedCase) -> ExecOutcome {
                 }
                 if parked_streak >= 25 {
                     let b = bound.map(|b| b.to_string()).unwrap_or_else(|| "unbounded".into());
-                    o.alarm("blocking_send_progress", &format!("blocking-send-stuck-bound={}", b), format!("{} sender(s) parked inside send() on a sync_channel({}) while the loop ran {} consecutive idle 20 ms dispatches, each finding them parked in futex", alive, b, parked_streak));
+                    // (the alarm is raised once the records are merged: whether the parked senders had sent their
+                    // wake-up before parking is part of the signature)
+                    let mark = hookrec::record(H_QUIESCE, 77, 0);
+                    stuck = Some((alive, b, parked_streak, mark));
                     stuck_reported = true;
                     // free the senders: removing the channel disconnects it
                     h.remove(token);
@@ -309,6 +322,24 @@ pub fn run(c: &SchedCase) -> ExecOutcome {
     hookrec::end();
     all.push(hookrec::take_thread());
     let recs = hookrec::merge(all);
+    if let Some((alive, b, streak, mark)) = stuck {
+        // the blocking sends that were in progress at the verdict, and whether each had written its wake-up
+        let mut no_wake = 0;
+        let mut stuck_sends = 0;
+        for sb in recs.iter().filter(|r| is_h(r, H_SEND_BEGIN) && r.b == 1 && r.seq < mark) {
+            let ended_before = recs.iter().any(|r| is_h(r, H_SEND_END) && r.a == sb.a && r.seq < mark);
+            if ended_before {
+                continue;
+            }
+            stuck_sends += 1;
+            let woke = recs.iter().any(|r| r.tid == sb.tid && is_site(r, Site::PingWritePost) && r.seq > sb.seq && r.seq < mark);
+            if !woke {
+                no_wake += 1;
+            }
+        }
+        let culprit = if stuck_sends > 0 && no_wake == stuck_sends { format!("blocking-send-stuck-bound={}-no-wake-up-written-before-parking", b) } else { format!("blocking-send-stuck-bound={}", b) };
+        o.alarm("blocking_send_progress", &culprit, format!("{} sender(s) parked inside send() on a sync_channel({}) while the loop ran {} consecutive idle 20 ms dispatches, each finding them parked in futex ({} of {} stuck sends had not written a wake-up)", alive, b, streak, no_wake, stuck_sends));
+    }
     check(&recs, &mut o, removed_early);
     o
 }
@@ -350,6 +381,31 @@ fn check(recs: &[Rec], o: &mut ExecOutcome, removed_early: bool) {
             if seen.contains_key(&r.a) {
                 o.alarm("exactly_once", "refused-message-delivered", format!("message {:#x} was refused by try_send/send but delivered", r.a));
             }
+        }
+    }
+    // no stranded message: once send() has returned, the wake-up it wrote is pending, so the first dispatch that begins
+    // afterwards delivers the message (the workload never queues more than a batch); a message that only arrives after two
+    // complete dispatches begun after its send returned owed its delivery to somebody else's later wake-up
+    let dispatches: Vec<(u64, u64)> = {
+        let mut v = Vec::new();
+        let mut open: Option<u64> = None;
+        for r in recs.iter().filter(|r| r.tid == 0) {
+            if is_h(r, H_DISPATCH_BEGIN) {
+                open = Some(r.seq);
+            } else if is_h(r, H_DISPATCH_END) {
+                if let Some(b) = open.take() {
+                    v.push((b, r.seq));
+                }
+            }
+        }
+        v
+    };
+    for se in sends.iter().filter(|r| r.b == 1) {
+        let Some(m) = msgs.iter().find(|m| m.a == se.a) else { continue };
+        let after: Vec<&(u64, u64)> = dispatches.iter().filter(|(b, _)| *b > se.seq).take(2).collect();
+        if after.len() == 2 && m.seq > after[1].1 {
+            o.alarm("no_stranded", "message-delivered-only-after-a-later-wake-up", format!("message {:#x}: send() had returned, two complete dispatches that began afterwards did not deliver it, a later one did", se.a));
+            break;
         }
     }
     // per-sender order
